@@ -466,6 +466,56 @@ def run(chk):
                    lambda c: str(dc.are_mods_equal(annot.parse_opt_mods(c[0]), annot.parse_opt_mods(c[1]))),
                    nontrivial_fn=lambda c, im: c[0] != 'N' and c[1] != 'N')
 
+    # Mod.__eq__ and Interval.__eq__ directly
+    mp = []
+    for _ in range(800 if tier == 'quick' else 20000):
+        x = dc.Mod(rng.choice(small), rng.choice([1, 1, 2, 3]))
+        y = dc.Mod(x.val if rng.random() < 0.5 else rng.choice(small), x.mult if rng.random() < 0.6 else rng.choice([1, 2, 3]))
+        mp.append((annot.show_mod(x), annot.show_mod(y)))
+    chk.correspond('mod_eq', DRV, mp, lambda c: f'modeq\t{c[0]}\t{c[1]}',
+                   lambda c: str(annot.parse_mod(c[0]) == annot.parse_mod(c[1])), nontrivial_fn=lambda c, im: im == 'True')
+    ivp = []
+    for _ in range(800 if tier == 'quick' else 20000):
+        x = dc.Interval(rng.randint(0, 3), rng.randint(2, 5), rng.random() < 0.5, rmods())
+        y = _copy.deepcopy(x)
+        r = rng.random()
+        if r < 0.15:
+            y.start += 1
+        elif r < 0.3:
+            y.end -= 1
+        elif r < 0.4:
+            y.ambiguous = not y.ambiguous
+        elif r < 0.6:
+            y.mods = rmods()
+        elif y.mods:
+            rng.shuffle(y.mods)
+        ivp.append((annot.show_interval(x), annot.show_interval(y)))
+
+    def iv_impl(c):
+        a = annot.undump('A|N|N|N|N|N|N|N|V' + c[0] + ';' + c[1] + '|None|N')._intervals
+        return str(a[0] == a[1])
+    chk.correspond('interval_eq', DRV, ivp, lambda c: f'iveq\t{c[0]}\t{c[1]}', iv_impl, nontrivial_fn=lambda c, im: im == 'True')
+
+    def o_mod(c):
+        x, y = annot.parse_mod(c[0]), annot.parse_mod(c[1])
+        want = (x.val == y.val) and (x.mult == y.mult)
+        if (x == y) != want or (y == x) != want:
+            return f'Mod {x!r} == {y!r} is {x == y}, values/multipliers say {want}'
+        if want and hash(x) != hash(y):
+            return f'equal Mods {x!r}, {y!r} with different hashes'
+        return None
+    chk.oracle('mod_eq_hash', mp, o_mod, nontrivial_fn=lambda c: c[0] != c[1], key_fn=lambda c: c[0] + ' ' + c[1])
+
+    def o_iv(c):
+        a = annot.undump('A|N|N|N|N|N|N|N|V' + c[0] + ';' + c[1] + '|None|N')._intervals
+        x, y = a
+        if (x == y) != (y == x):
+            return f'Interval equality not symmetric: {x!r}, {y!r}'
+        if x == y and hash(x) != hash(y):
+            return f'equal Intervals {x!r}, {y!r} with different hashes (Counter-based comparison will miss them)'
+        return None
+    chk.oracle('interval_eq_hash', ivp, o_iv, nontrivial_fn=lambda c: c[0] != c[1], key_fn=lambda c: c[0] + ' ' + c[1])
+
     vals = value_pool() + small + [float('inf'), float('-inf'), 1e-7, 1.5e-07, 1e22, 123456.789, -0.5, '1', 'inf']
     vp = [(annot.show_val(x), annot.show_val(y)) for x in vals for y in vals] if tier != 'quick' else \
         [(annot.show_val(rng.choice(vals)), annot.show_val(rng.choice(vals))) for _ in range(1500)]
